@@ -540,7 +540,7 @@ func (f *Forge) ghGeneralComment(_ *http.Request, body []byte) (int, any, bool, 
 
 // ---- GitLab ----
 
-func (f *Forge) glListDiffs(*http.Request, []byte) (int, any, bool, map[string]string) {
+func (f *Forge) glListDiffs(r *http.Request, _ []byte) (int, any, bool, map[string]string) {
 	f.mu.Lock()
 	defer f.mu.Unlock()
 	out := []map[string]any{}
@@ -551,7 +551,8 @@ func (f *Forge) glListDiffs(*http.Request, []byte) (int, any, bool, map[string]s
 		}
 		out = append(out, map[string]any{"old_path": op, "new_path": fl.Path, "diff": fl.Patch, "a_mode": "100644", "b_mode": "100644"})
 	}
-	return 200, out, false, nil
+	pg, hdr := f.glPage(r, out)
+	return 200, pg, false, hdr
 }
 
 func (f *Forge) glListDiscussions(r *http.Request, _ []byte) (int, any, bool, map[string]string) {
@@ -580,12 +581,21 @@ func (f *Forge) glListDiscussions(r *http.Request, _ []byte) (int, any, bool, ma
 		}
 		all = append(all, map[string]any{"id": c.Thread, "individual_note": false, "notes": notes})
 	}
-	// pagination
+	pg, hdr := f.glPage(r, all)
+	return 200, pg, false, hdr
+}
+
+// glPage cuts a GitLab listing into pages (offset pagination with the X-* headers); the page size is the
+// scenario's unless the request names one.
+func (f *Forge) glPage(r *http.Request, all []map[string]any) ([]map[string]any, map[string]string) {
 	page, _ := strconv.Atoi(r.URL.Query().Get("page"))
 	if page < 1 {
 		page = 1
 	}
 	per := f.PerPage
+	if v, err := strconv.Atoi(r.URL.Query().Get("per_page")); err == nil && v > 0 && v < per {
+		per = v
+	}
 	lo := (page - 1) * per
 	hi := lo + per
 	if lo > len(all) {
@@ -598,7 +608,7 @@ func (f *Forge) glListDiscussions(r *http.Request, _ []byte) (int, any, bool, ma
 	if hi < len(all) {
 		hdr["X-Next-Page"] = strconv.Itoa(page + 1)
 	}
-	return 200, all[lo:hi], false, hdr
+	return all[lo:hi], hdr
 }
 
 func (f *Forge) glCreateDiscussion(r *http.Request, body []byte) (int, any, bool, map[string]string) {
